@@ -21,20 +21,26 @@ import numpy as np
 
 from harness import tabutil as tu
 from harness.c01 import make_compilers, tokens_of
-from harness.c02 import graph_canon
+from harness.c02 import graph_canon, per_wire
 from harness.common import Driver, Result, err_class
 
-LEVEL = "translation_validation"
+LEVEL = "proof"
 TRUSTED_BASE = [
-    "Lean 4.33 kernel; theorem C02.validator_sound / C10.entry_validator_sound on top of the C07/C01 tableau semantics",
-    "Lean theorems about the modelled result assembly (duplicate removal for every set iteration order, relabelling composition / isomorphism, outer loops with the parts as parameters); "
-    "correspondence of that model with solve(): exact comparison of the observed loop state on every run (testing)",
-    "the parts the loops call (isomorph search, orbit walks: C16; LC conversion gates: C09; time-reversed solver: C02) are parameters of the model here; every output of the real solver is validated",
+    "Lean 4.33 kernel; theorem C10.alternate_target_result_sound: with the time-reversed solver (C02 model, whatever it returns is correct) and the LC conversion "
+    "(lc_check(validate=True) of C09 + str_to_op, Alt.conv_generates) modelled, every entry solve returns generates the target renamed by its map under every outcome "
+    "script and the listed graphs are pairwise different; on top of the C07/C01 tableau semantics, C02, C09, C05/C07 group theorems",
+    "side conditions of that theorem, decidable and evaluated on every observed run: the graphs are simple graphs on n vertices; every relabel map passes the isomorphism "
+    "test recorded as the specification of networkx GraphMatcher (isIsoMap); `list(s)[0]` is a member of the set (read off the observed sets)",
+    "correspondence of the model with solve(): exact comparison of the observed loop state on every run, and of every entry's circuit (per-wire operation sequences) with the "
+    "modelled entry `solver model on the LC graph ++ str_to_op(lc_check gates)` (driver command solver.altentry) — testing; the model of lc_check is compared in C09, the solver model in C02",
+    "kept as regression: every entry is also passed through the verified validator (C02.validator_sound / C10.entry_validator_sound) and compiled by the real stabilizer backend; "
     "independent Python BFS over local complementations for orbit membership (n <= 7)",
 ]
 ASSUMPTIONS = [
-    "connected targets (the quantifier); targets with isolated vertices hit the known finding D3 of C02",
+    "connected targets (the quantifier); targets with isolated vertices hit the known finding D3 of C02 (C02.isolated_vertex_raises: the solver raises, no entry is produced)",
     "the iteration order of a Python set of ints (`list(s)[0]`, which entry of a class survives) is a parameter of the model; the harness reads it off the observed sets",
+    "iso_finder and the LC-orbit explorers are parameters of the soundness theorem (their outputs are only required to be simple graphs on n vertices): a graph outside the orbit "
+    "makes lc_check fail, never a wrong entry; that the listed graph lies in the orbit is C16 and is re-checked per output",
 ]
 
 LC_METHODS = [None, "lc_with_iso", "random", "random_with_iso", "random_with_rep", "linear", "depth_first", "rgs"]
@@ -162,6 +168,28 @@ def check_assembly(res, inp, n, out, cap, pending):
         lcs = [",".join(tu.bits(nx.to_numpy_array(lc).astype(int)) for lc in iso["lcs"]) or "-" for iso in cap["isos"]]
     except Exception:  # noqa: BLE001 (a map that is not total on the vertices is reported by the entry checks)
         return
+    # side conditions of C10.alternate_target_result_sound, evaluated directly on the observed parts
+    adj_t = tu.unbits(inp["adjacency"], (n, n))
+    for i, iso in enumerate(cap["isos"]):
+        a_iso, rmap = iso["iso"], {u: v for u, v in iso["rmap"].items() if u != -1}
+        good_map = sorted(rmap.keys()) == list(range(n)) and sorted(rmap.values()) == list(range(n)) and all(
+            adj_t[u, v] == a_iso[rmap[u], rmap[v]] for u in range(n) for v in range(n))
+        if not good_map:
+            res.exact_break("spec:get_relabel_map-is-not-an-isomorphism", input=dict(inp, isomorph=i), impl=str(iso["rmap"])[:300], model="isIsoMap = false")
+        for k, lc in enumerate(iso["lcs"]):
+            a_lc = nx.to_numpy_array(lc, nodelist=sorted(lc.nodes())).astype(int)
+            if a_lc.shape != (n, n) or (a_lc != a_lc.T).any() or a_lc.diagonal().any():
+                res.exact_break("spec:lc-graph-not-simple", input=dict(inp, isomorph=i, lc=k), impl=tu.bits(a_lc), model="Simple")
+    # every entry before the removal against the modelled entry (C10.modelParts): solver model on the LC graph, then str_to_op of the lc_check gates
+    if ok:
+        for (i, k, lc, rmap), e in zip(flat, pre["results"]):
+            try:
+                toks, _ = tokens_of(e[0])
+            except Exception:  # noqa: BLE001
+                continue
+            a_lc = nx.to_numpy_array(lc, nodelist=sorted(lc.nodes())).astype(int)
+            pending.append((f"solver.altentry n={n} lc={tu.bits(a_lc)} iso={tu.bits(cap['isos'][i]['iso'])}",
+                            dict(inp, isomorph=i, lc=k, impl=dict(ne=e[0].n_emitters, wires=per_wire(toks)), what="entry")))
     impl2 = dict(pre=src if ok else None, out=[src[k] for k in kept] if ok and all(k >= 0 for k in kept) else None,
                  maps=[lab(e[1]["map"]) for e in out])
     pending.append((f"alt.solve n={n} isos={';'.join(tu.bits(iso['iso']) for iso in cap['isos'])} lcs={';'.join(lcs)} maps={';'.join(maps)} pick={pick_tok}",
@@ -278,6 +306,19 @@ def run_setting(ctx, res, drv, adj, kw, seed, pending, default=False, scramble=F
 def flush(res, drv, pending):
     for rep, (ln, einp) in zip(drv.batch([p[0] for p in pending]), pending):
         what = einp.get("what")
+        if what == "entry":
+            einp = dict(einp)
+            impl = einp.pop("impl")
+            einp.pop("what")
+            if rep["_status"] != "ok":
+                res.exact_break("solve:entry", input=einp, impl=str(impl)[:600], model=rep["_raw"][:300])
+                continue
+            mt = [] if rep["ops"] == "-" else rep["ops"].split(",")
+            if int(rep["ne"]) == impl["ne"] and per_wire(mt) == impl["wires"]:
+                res.traces_validated += 1
+            else:
+                res.exact_break("solve:entry", input=einp, impl=str(impl)[:900], model=rep["_raw"][:900])
+            continue
         if what in ("dedup", "loops", "relabel"):
             einp = dict(einp)
             impl = einp.pop("impl")
